@@ -142,9 +142,15 @@ Fixpoint lbp (fuel : nat) (path : bytes) (lazy : bool) (ph : phase) (s : st) {st
           match pend prm with
           | None => Found (Some (cur s)) false ps' (tps s)
           | Some _ =>
+            match nth_error path start with
+            | None => LPanic
+            | Some c0 =>
+            if Ascii.eqb c0 "/" then lbp f path lazy PAfter s       (* infix value starting with '/': break Walk *)
+            else
             lbp f path lazy PAfter
               {| cur := cur s; par := par s; cm := n; cmn := cmn s; pcnt := pcnt s; pkc := pkc s; sks := sks s;
                  ps := ps'; tsr := tsr s; tn := tn s; tps := tps s |}
+            end
           end
         end
       end
@@ -155,6 +161,9 @@ Fixpoint lbp (fuel : nat) (path : bytes) (lazy : bool) (ph : phase) (s : st) {st
         | Some p =>
           match find_child (cur s) p with
           | None =>
+            let s := if negb (tsr s) && is_leaf (cur s) && Nat.eqb (cmn s) (List.length key)
+                        && Nat.eqb (n - cm s) 1 && Ascii.eqb p "/"
+                     then set_tsr lazy s (cur s) (ps s) else s in
             match param_child_index (cur s) with
             | Some pi =>
               let s1 := match wildcard_child_index (cur s) with Some wi => push s wi | None => s end in
@@ -188,6 +197,15 @@ Fixpoint lbp (fuel : nat) (path : bytes) (lazy : bool) (ph : phase) (s : st) {st
           if negb (tsr s) && has_suffix_slash path && par_is_leaf s && Nat.eqb (cm s) n
              && Nat.eqb (cmn s) 1 && starts_with "/" key
           then match par s with Some p => set_tsr lazy s p (ps s) | None => s end
+          else if negb (tsr s) && Nat.eqb (cm s) n && Nat.eqb (cmn s) (List.length key) && negb (has_suffix_slash path)
+          then match find_child (cur s) "/" with
+               | Some idx =>
+                 match nth_error (nchildren (cur s)) idx with
+                 | Some c => if is_leaf c && Nat.eqb (List.length (nkey c)) 1 then set_tsr lazy s c (ps s) else s
+                 | None => s
+                 end
+               | None => s
+               end
           else s in
         lbp f path lazy PBack s1
       else if Nat.eqb (cm s) n && Nat.eqb (cmn s) (List.length key) then
@@ -364,24 +382,6 @@ Definition lookup_by_domain (fuel : nat) (target : node) (host path : bytes) (la
   end.
 
 (* ---------- roots.methodIndex / roots.lookup (node.go:18-37, 85-116) ---------- *)
-Definition roots := list node.
-
-Definition m_get := S2B "GET". Definition m_post := S2B "POST".
-Definition m_put := S2B "PUT". Definition m_delete := S2B "DELETE".
-
-Fixpoint find_key_from (i : nat) (m : bytes) (l : list node) : option nat :=
-  match l with
-  | [] => None
-  | x :: r => if bytes_eqb (nkey x) m then Some i else find_key_from (S i) m r
-  end.
-
-Definition method_index (r : roots) (m : bytes) : option nat :=
-  if bytes_eqb m m_get then Some 0
-  else if bytes_eqb m m_post then Some 1
-  else if bytes_eqb m m_put then Some 2
-  else if bytes_eqb m m_delete then Some 3
-  else find_key_from 4 m (skipn 4 r).
-
 (* host is the already stripped host (netutil.StripHostPort, modelled in HostPort.v) *)
 Definition roots_lookup (fuel : nat) (r : roots) (method host path : bytes) (lazy : bool) (ps0 tps0 : list kv) : lres :=
   match method_index r method with
